@@ -93,7 +93,11 @@ func c03Heredoc(c *core.Ctx, cs hdCase) {
 	if !ok {
 		// cannot happen with the explicit closer appended by the generator; kept for replayed cases
 		if res.NErr() == 0 {
-			c.Report("an unterminated heredoc is accepted ("+fam+", "+grp+")", mkWhat("%q under %s", cs.Src, cs.Ver), cs)
+			at := ""
+			if strings.HasSuffix(text, "A;") {
+				at = " [the closing label and `;` are the last bytes of the input]"
+			}
+			c.Report("an unterminated heredoc is accepted ("+fam+", "+grp+")"+at, mkWhat("%q under %s", cs.Src, cs.Ver), cs)
 		}
 		return
 	}
@@ -159,4 +163,45 @@ func c03Heredocs(c *core.Ctx) {
 		}
 	}
 	rec("", 0)
+	one := func(o, body, cl string) {
+		if !c.Next() {
+			return
+		}
+		text := body + cl
+		closer := len(body) + strings.Index(cl, "A")
+		for _, v := range vers {
+			cs := hdCase{srcCase: mkCase("<?php $x = "+o+text, v, "E-heredoc"), Open: o, Text: text, Closer: closer}
+			c03Heredoc(c, cs)
+			c.P.States++
+		}
+	}
+	// the bytes at the edges of the identifier classes directly behind a label at the start of a line (`A0` `Az` `A\x80`
+	// continue the name, `A/` `A:` `A@` `A[` `` A` `` `A{` `A\x7f` do not), alone and next to every other fragment
+	for _, b := range []string{"A0", "A9", "Aa", "Az", "AZ", "A\x80", "A\xff", "A\x7f", "A/", "A:", "A@", "A[", "A`", "A{"} {
+		for _, o := range opens {
+			for _, cl := range closers {
+				one(o, b, cl)
+				for _, f := range hdFragments {
+					if !(f == "$v" && b == "A[") { // `$vA[` would open an array offset
+						one(o, f+b, cl)
+					}
+					if !(strings.HasSuffix(b, "{") && strings.HasPrefix(f, "$")) { // `A{$v` would open a complex interpolation
+						one(o, b+f, cl)
+					}
+				}
+			}
+		}
+	}
+	// the input ends with the closing label's line: `A;` at the very end, followed by a blank, or by a line terminator
+	for _, cl := range []string{"\nA;", "\nA; ", "\nA;\t", "\nA;\n", "\nA;\r\n", "\r\nA;", "\nA;  ", "\n A;", "\nA ;"} {
+		for _, o := range opens {
+			one(o, "", cl)
+			for _, f := range hdFragments {
+				one(o, f, cl)
+				for _, g := range hdFragments {
+					one(o, f+g, cl)
+				}
+			}
+		}
+	}
 }
